@@ -554,6 +554,9 @@ func HRawInst(tmpl, rawKind, methodIdx, prefixIdx int) {
 		zz.Observe("route", route.Name())
 		zz.Observe("args", route.Args())
 	}
+	// the router works on the (normalised) escaped text: an argument whose first byte is static text of a
+	// diverging sibling template is inside the recorded static-sibling finding here as well
+	zz.Known("C05/static-sibling-shadows-parameter", zz.Or(zzSiblingStatic(method, zzInstantiate(t, dec)), zzSiblingStatic(method, zzInstantiate(t, raw))))
 	if prefix != "" {
 		// the same request with the PREFIX spelled with a needless escape ("/%61pi" for "/api"): paths that differ
 		// only in needless escaping of unreserved characters reach the same operation with the same arguments (C12's
@@ -576,9 +579,6 @@ func HRawInst(tmpl, rawKind, methodIdx, prefixIdx int) {
 			zz.Assert(same, "a needlessly escaped path prefix does not change the operation or its arguments")
 		}
 	}
-	// the router works on the (normalised) escaped text: an argument whose first byte is static text of a
-	// diverging sibling template is inside the recorded static-sibling finding here as well
-	zz.Known("C05/static-sibling-shadows-parameter", zz.Or(zzSiblingStatic(method, zzInstantiate(t, dec)), zzSiblingStatic(method, zzInstantiate(t, raw))))
 	zz.Assert(found == (seen.calls == 1), "P5 (escaped paths): FindPath finds a route exactly when ServeHTTP runs a handler")
 	if !found {
 		zz.Known("C05/static-sibling-shadows-parameter", false)
